@@ -77,6 +77,20 @@ add('C02', 'exploration',
     'and header blocks are decoded by a monitor-owned HPACK decoder. Header blocks are sized to +-12 bytes of k*MAX_FRAME_SIZE.',
     'Header lists in this workload are already in normal form (normalisation is C14); E.encoder is deep-copied only to size inputs.')
 
+add('C12', 'fault_enumeration',
+    'runtime monitoring: reaction oracle from an RFC 6.5.2 / RFC 8441 table over an exhaustive settings grid',
+    'Grid of 26 identifiers x 14 boundary values x 3 channels (received frame, update_settings, Settings initial values) x role x '
+    'position is enumerated completely on every run and judged against a table written from the RFCs (accept / mandated code, '
+    'exception code == GOAWAY code); plus the INITIAL_WINDOW_SIZE-delta overflow sub-grid over live, half-closed and closed streams.',
+    'Identifiers >= 0x100 are only judged for local acceptance (their wire truncation is the C02 known finding).')
+
+add('C16', 'exploration',
+    'runtime monitoring: independent RFC 7540 8.1.2.6 content-length function vs observed accept/reject over an exhaustive message grid',
+    'About 7900 request/response shapes (method x status x content-length x body size x DATA chunking x padding x END_STREAM '
+    'placement x HEAD request trailers) are delivered by a scripted peer; malformed-by-oracle messages must be rejected no later '
+    'than their END_STREAM frame, well-formed ones fully delivered.',
+    'Negative / non-numeric / duplicated content-length and content-length on 1xx blocks are undetermined classes (not generated).')
+
 NOT_BUILT_REASON = 'check not built yet in this session (planned in DESIGN.md; no verdict claimed)'
 
 def main():
